@@ -665,7 +665,7 @@ impl Tr<'_> {
         let r = self.stmts(&f.block.stmts, &mut sc, out);
         self.stop_at_loop = saved;
         self.inline_depth -= 1;
-        match r? {
+        match r.map_err(|e| format!("in `{name}`: {e}"))? {
             Flow::Value(v) => Ok(v),
             _ => Err(format!("`{name}` does not return normally")),
         }
